@@ -57,12 +57,11 @@ def make_world():
                 except ValueError:
                     pass
     for ev in USER:
-        r = w.apply(ev)
-        assert r[0] == 'ok', (ev, r)
+        w.must(ev)
     w.sf = {}
     functional, _ = O.iso_table()
     for c in CURRENCIES:
-        w.apply(['cur', c])
+        w.must(['cur', c])
         (minor,) = functional[c]['minor']
         w.sf[c] = F(1, 10 ** minor)
     return w
